@@ -469,8 +469,13 @@ func (c *CEnv) sel(v cv, field string) cv {
 			c.fail("pointer value without pointer type")
 		}
 		if _, live := st.Heap[x.Obj]; !live {
-			// nil pointer in a specification context: an arbitrary value (the clause must guard it)
-			return c.sel(cv{V: c.x.e.freshVal(st, "nilderef", pt.Elem()), T: pt.Elem()}, field)
+			if _, liveNow := c.st.Heap[x.Obj]; liveNow && st != c.st {
+				// object allocated after the entry state: old() does not apply to it
+				st = c.st
+			} else {
+				// nil pointer in a specification context: an arbitrary value (the clause must guard it)
+				return c.sel(cv{V: c.x.e.freshVal(st, "nilderef", pt.Elem()), T: pt.Elem()}, field)
+			}
 		}
 		inner := c.x.e.load(st, x)
 		if ov, ok := inner.(*OpaqueV); ok && ov.Tag == "any" {
@@ -651,6 +656,9 @@ func (c *CEnv) index1(base cv, idx T) cv {
 		if b.Back < 0 {
 			// total semantics in specifications: an arbitrary element (indices are guarded by the clause)
 			return cv{V: c.x.e.fresh("nilelem", c.x.e.sortOf(b.Elem)), T: b.Elem}
+		}
+		if _, live := st.Heap[b.Back]; !live {
+			st = c.st // backing allocated after the entry state
 		}
 		i := Add(b.Off, idx)
 		if av, isArr := st.Heap[b.Back].(*ArrV); isArr {
